@@ -64,7 +64,7 @@ MinField(S, T, g, key) ==
       sel |-> IF IsComposite(S, d.type.n) THEN <<dLf("__typename")>> ELSE <<>>]
 
 FieldNamesOf(S, T) == IF TypeKind(S, T) \in {"OBJECT", "INTERFACE"} THEN DOMAIN S.types[T].fields ELSE {}
-CompositeTypes(S) == {n \in DOMAIN S.types : S.types[n].kind \in {"OBJECT", "INTERFACE", "UNION"}}
+CompositeTypes(S) == {n \in UserTypes(S) : S.types[n].kind \in {"OBJECT", "INTERFACE", "UNION"}}
 
 ----------------------------------------------------------------------------
 \* values: positions inside a literal
@@ -84,7 +84,7 @@ ValueAt(v, p) == IF Len(p) = 0 THEN v ELSE IF v.t = "l" THEN ValueAt(v.l[p[1]], 
 \* object-literal positions of a value (for input-object field mutations)
 ObjPaths(v) == {p \in ValuePaths(v) : ValueAt(v, p).t = "o"}
 
-AnEnum(S) == LET es == {n \in DOMAIN S.types : S.types[n].kind = "ENUM"} IN
+AnEnum(S) == LET es == {n \in UserTypes(S) : S.types[n].kind = "ENUM"} IN
              IF es = {} THEN "NOPE" ELSE CHOOSE v \in S.types[CHOOSE e \in es : TRUE].values : TRUE
 
 \* replacement literals for WrongValueKind / EnumAsString
@@ -204,7 +204,7 @@ MutUnknownFragment(S, doc) ==
   {EditSel(doc, x, <<[x.s EXCEPT !.name = "Nope"]>>) : x \in {y \in SelSites(S, doc) : y.s.k = "spread"}}
   \cup {EditSet(doc, x, Append(x.sel, dSpr("Nope"))) : x \in SetSites(S, doc)}
 
-TypeCondMenu(S) == DOMAIN S.types \cup {"Nope", "Int"}
+TypeCondMenu(S) == UserTypes(S) \cup {"Nope", "Int", "__Type"}
 MutImpossibleSpread(S, doc) ==
   \* a new inline fragment / spread of a new fragment on every type name of the schema (possible or not, composite or not)
   {EditSet(doc, x, Append(x.sel, dInl(X, <<dLf("__typename")>>))) : <<x, X>> \in SetSites(S, doc) \X TypeCondMenu(S)}
@@ -232,7 +232,7 @@ MutDupVar(S, doc) ==
   {[doc EXCEPT !.ops[ij[1]].vars = Append(@, doc.ops[ij[1]].vars[ij[2]])] : ij \in VarIdx(doc)}
 
 VarTypeMenu(S) ==
-  LET base == {"Int", "String", "Boolean", "ID", "Float"} \cup {n \in DOMAIN S.types : S.types[n].kind \in {"ENUM", "INPUT", "SCALAR"}}
+  LET base == {"Int", "String", "Boolean", "ID", "Float"} \cup {n \in UserTypes(S) : S.types[n].kind \in {"ENUM", "INPUT", "SCALAR"}}
   IN UNION {{Ty(n), NN(Ty(n)), Ls(Ty(n)), NN(Ls(NN(Ty(n))))} : n \in base} \cup {Ls(Ls(Ty("Int"))), Ls(NN(Ty("Int")))}
 MutVarInWrongPosition(S, doc) ==
   {[doc EXCEPT !.ops[ij[1]].vars[ij[2]].type = ty] : <<ij, ty>> \in VarIdx(doc) \X VarTypeMenu(S)}
@@ -312,10 +312,33 @@ MutSiblingOperation(S, doc) ==
             \cup {[d EXCEPT !.ops = Append(@, SiblingFor(S, n))] : d \in {named, undef}}
          : ij \in {x \in VarIdx(doc) : Len(doc.ops) = 1}}
 
+\* definitions the request does not execute: they must not change the admission of the selected operation.
+\* UnusedDefinition: valid ones (an unused fragment, an unselected operation, a second identical definition of a reached fragment)
+NamedSelected(doc, i) == IF doc.ops[i].name = "" THEN [doc EXCEPT !.ops[i].name = "Sel", !.opName = "Sel"] ELSE [doc EXCEPT !.opName = doc.ops[i].name]
+MutUnusedDefinition(S, doc) ==
+  UNION {LET d == NamedSelected(doc, i)
+         IN {[d EXCEPT !.frags = Append(@, dFrag("Unused", S.query, <<dLf("__typename")>>))],
+             [d EXCEPT !.ops = Append(@, dOp("query", "Other", <<>>, <<dLf("__typename")>>))],
+             [d EXCEPT !.ops = <<dOp("query", "Other", <<>>, <<dLf("__typename")>>)>> \o @]}
+            \cup {[d EXCEPT !.frags = Append(@, d.frags[j])] : j \in FragIdx(d)}
+         : i \in {k \in OpIdx(doc) : Len(doc.ops) = 1}}
+\* DiscardedInvalid: invalid ones (the specification's rules about them are outside the guarantee: only an accepted invalid
+\* selected operation or a crash counts)
+MutDiscardedInvalid(S, doc) ==
+  UNION {LET d == NamedSelected(doc, i)
+         IN {[d EXCEPT !.frags = Append(@, dFrag("Unused", "Nope", <<dLf("nope")>>))],
+             [d EXCEPT !.frags = Append(@, dFrag("Unused", S.query, <<dSpr("Unused")>>))],
+             [d EXCEPT !.ops = Append(@, dOp("query", "Bad", <<>>, <<dLf("nope")>>))],
+             [d EXCEPT !.ops = <<dOp("query", "Bad", <<dVar("u", Ty("Int"), Absent)>>, <<dF("__typename", <<dA("zz", VVar("w"))>>, <<>>)>>)>> \o @],
+             [d EXCEPT !.ops = @ \o <<dOp("query", "Bad", <<>>, <<dLf("__typename")>>), dOp("query", "Bad", <<>>, <<dLf("__typename")>>)>>],
+             [d EXCEPT !.ops = Append(@, dOp("query", "", <<>>, <<dLf("__typename")>>))]}
+            \cup {[d EXCEPT !.frags = Append(@, [d.frags[j] EXCEPT !.sel = <<dLf("nope")>>, !.on = "Nope"])] : j \in FragIdx(d)}
+         : i \in {k \in OpIdx(doc) : Len(doc.ops) = 1}}
+
 ----------------------------------------------------------------------------
 MutationKinds == <<"UnknownField", "DropRequiredArg", "UnknownArg", "DupArg", "WrongValueKind", "InputObjectField",
                    "CyclicFragment", "UnknownFragment", "ImpossibleSpread", "UndefinedVar", "UnusedVar",
-                   "VarInWrongPosition", "DupVar", "NonInputVar", "ConflictingResponseName", "ConflictingArgs", "ConflictingTriple", "SiblingOperation", "LeafWithSelection",
+                   "VarInWrongPosition", "DupVar", "NonInputVar", "ConflictingResponseName", "ConflictingArgs", "ConflictingTriple", "SiblingOperation", "UnusedDefinition", "DiscardedInvalid", "LeafWithSelection",
                    "CompositeWithoutSelection", "UnknownDirective", "MisplacedDirective", "DirectiveMissingArg", "DupDirective",
                    "TwoSubscriptionRoots", "IntrospectionSubscriptionRoot", "Operations">>
 
@@ -338,6 +361,8 @@ MutantsOfKind(kind, S, doc) ==
     [] kind = "ConflictingArgs" -> MutConflictingArgs(S, doc)
     [] kind = "ConflictingTriple" -> MutConflictingTriple(S, doc)
     [] kind = "SiblingOperation" -> MutSiblingOperation(S, doc)
+    [] kind = "UnusedDefinition" -> MutUnusedDefinition(S, doc)
+    [] kind = "DiscardedInvalid" -> MutDiscardedInvalid(S, doc)
     [] kind = "LeafWithSelection" -> MutLeafWithSelection(S, doc)
     [] kind = "CompositeWithoutSelection" -> MutCompositeWithoutSelection(S, doc)
     [] kind = "UnknownDirective" -> MutUnknownDirective(S, doc)
